@@ -89,7 +89,17 @@ def optimizer_diff_features(unopt, opt):
             nxt = a[k + 1] if k + 1 < len(a) else ""
             if nxt != "load " + m.group(2):
                 unpaired = True
-    return {"opt_is_unopt_minus_slot_ops": bool(dropped), "opt_deleted_unpaired_store": unpaired}
+    # a deleted load that did NOT directly follow a store of its slot means the optimiser cancelled a slot that
+    # still had a real reader - that is never the recorded finding (which only loses dead stores)
+    unpaired_load = False
+    for k in dropped:
+        m = _SL.match(a[k])
+        if m.group(1) == "load":
+            prv = a[k - 1] if k > 0 else ""
+            if prv != "store " + m.group(2):
+                unpaired_load = True
+    return {"opt_is_unopt_minus_slot_ops": bool(dropped), "opt_deleted_unpaired_store": unpaired,
+            "opt_deleted_unpaired_load": unpaired_load}
 
 
 def observe(p, prog, inp, cfg):
@@ -271,6 +281,10 @@ def run(tier):
         if tier == "quick" and n == 3 and gen_ctrl.has_unreachable(b):
             continue
         items.append((n, gen_ctrl.make_program(b, "implicit"), basic, "ctrl"))
+    lg = gen_ctrl.Grammar(gen_ctrl.LOOP_ATOMS, gen_ctrl.LOOP_COMPOUNDS, gen_ctrl.LOOP_CONDS)
+    for n, b in lg.programs(4 if tier == "quick" else 5):
+        if n > n_full and not gen_ctrl.has_unreachable(b):
+            items.append((n, gen_ctrl.make_program(b, "implicit"), basic, "ctrl-loop"))
     for s, p, i in gen_sub.programs(tier):
         items.append((s, p, i, "subs"))
     k = 3 if tier == "quick" else 4
